@@ -287,9 +287,11 @@ func cmdMerge(args []string) {
 		"instrumentation":             instrInfo,
 		"tree_sha256":                 treeSHA,
 		"components": map[string]interface{}{
-			"real":              []string{"github.com/openacid/slim/trie, array, encode, index (instrumented source of /repo's current working tree)", "golang/protobuf", "openacid/low", "openacid/must", "openacid/errors", "blang/semver"},
-			"patched":           []string{"openacid/low bitstr.StrCmpUpto: unsafe string->slice header cast replaced by a copy (scratch copy only)"},
-			"stub":              []string{"disk (byte arrays with a durable prefix)", "buffer pool (canary-guarded arenas)", "task scheduler (seeded, cooperative)", "map iteration order (PRNG permutation seam)"},
+			"real":    []string{"github.com/openacid/slim/trie, array, encode, index (instrumented source of /repo's current working tree)", "golang/protobuf", "openacid/low", "openacid/must", "openacid/errors", "blang/semver"},
+			"patched": []string{"openacid/low bitstr.StrCmpUpto: unsafe string->slice header cast replaced by a copy (scratch copy only)"},
+			"stub": []string{"disk (byte arrays with a durable prefix)", "buffer pool (canary-guarded arenas)", "task scheduler (seeded, cooperative)", "map iteration order (PRNG permutation seam)",
+				"go statements, channels, select, WaitGroup, Cond, Sleep of the code under test (emulated under the scheduler; instrumentation.go_statements says whether the tree has any)",
+				"DataReader of index.SlimIndex (the record at an offset is the offset and the key)"},
 			"durable_artifacts": "97 archived streams of slim 0.5.0-0.5.10 in trie/testdata, read in place",
 		},
 	}
